@@ -26,6 +26,10 @@ func glueCase(r *prng.R, id string) proto.Case {
 	var seqs []int      // sequence ids started
 	next := 0
 	n := r.Range(4, 28)
+	stalled := r.Chance(50) // half of the cases: the worker is stalled from the start, everything queues up
+	if stalled {
+		ops = append(ops, "stall")
+	}
 	status := func(t *glueTxn) int {
 		switch k := r.Intn(100); {
 		case k < 65:
@@ -88,14 +92,26 @@ func glueCase(r *prng.R, id string) proto.Case {
 			if okv == 1 {
 				cur = d
 			}
-		default:
+		case k < 95:
 			ops = append(ops, "revert kind="+prng.Pick(r, []string{"last", "free"}))
+		case k < 98:
+			// the diagnosis worker's exporter stalls / is writable again: a backlog builds while stalled
+			if stalled {
+				ops = append(ops, "unstall")
+			} else {
+				ops = append(ops, "stall")
+			}
+			stalled = !stalled
+		default:
+			ops = append(ops, "diag")
+			stalled = false
 		}
 	}
-	// drain: answer everything that is still pending
+	// drain: answer everything that is still pending, then let the diagnosis worker finish
 	for _, t := range open {
 		ops = append(ops, fmt.Sprintf("resp id=%d seq=%d status=%d", t.id, t.seq, status(t)))
 	}
+	ops = append(ops, "diag")
 	return proto.Case{ID: id, Ops: ops}
 }
 
@@ -109,8 +125,28 @@ func glueEnum(depth int, emit func(proto.Case)) {
 	var rec func(prefix []string)
 	rec = func(prefix []string) {
 		if len(prefix) == depth {
+			// a request that arrives AFTER a response of the same transaction id makes the diagnosis record depend on
+			// when the worker gets to the task (it reads its cache at that moment): not a deterministic observable
+			for _, t := range []string{"id=1 ", "id=2 "} {
+				respFirst := false
+				for _, op := range prefix {
+					if strings.HasPrefix(op, "resp "+t) {
+						respFirst = true
+					}
+					if strings.HasPrefix(op, "req "+t) {
+						if respFirst {
+							return
+						}
+						break
+					}
+				}
+			}
 			id++
-			emit(proto.Case{ID: fmt.Sprintf("ge%d", id), Ops: append([]string{"gcfg d0=0"}, prefix...)})
+			ops := append([]string{"gcfg d0=0"}, prefix...)
+			if id%2 == 0 { // every other sequence with the diagnosis worker stalled until the end
+				ops = append([]string{"gcfg d0=0", "stall"}, prefix...)
+			}
+			emit(proto.Case{ID: fmt.Sprintf("ge%d", id), Ops: append(ops, "diag")})
 			return
 		}
 		for _, a := range alpha {
@@ -148,6 +184,20 @@ func classifyGlue(c proto.Case, outs []string, o *proto.Out) {
 			}
 		case "revert":
 			o.Count("glue-revert")
+		case "stall":
+			o.Count("glue-stall")
+		case "diag":
+			if outs[i] != "diag=none" {
+				for _, item := range strings.Split(strings.TrimPrefix(strings.Fields(outs[i])[0], "diag="), ",") {
+					idl := strings.SplitN(item, ":", 2)
+					if len(idl) == 2 && first[idl[0]] != cur {
+						o.Count("glue-diag-record-of-txn-pinned-to-older-policies")
+						nontriv = true
+					} else {
+						o.Count("glue-diag-record")
+					}
+				}
+			}
 		case "req", "resp":
 			id, _ := proto.KV(f, "id")
 			seq, _ := proto.KV(f, "seq")
